@@ -9,6 +9,9 @@ Theorem load_indexes_exact : forall name k ns, WF ns ->
   exists ix, rebuild false ns = ROk ix /\ FragOK (mkFrag name k ns ix).
 Proof. exact load_ok. Qed.
 Print Assumptions load_indexes_exact.
+(* hypotheses satisfiable: a fragment of three elements, two with ids, one placeholder with an href (GraphP.d_nodes) *)
+Example load_indexes_exact_hyps_sat : WF d_nodes /\ length d_nodes = 3%nat.
+Proof. split; [exact d_nodes_wf|reflexivity]. Qed.
 
 (* 2. one step: attaching a subtree paired with idcache_index, and detaching one paired with
       idcache_remove, keep all three indexes exact (any fragment, any subtree) *)
@@ -17,35 +20,67 @@ Theorem attach_keeps_indexes_exact : forall fr f add,
   exists fr', step_frag false fr (Attach f add) = ROk fr' /\ FragOK fr' /\ fnodes fr' = fnodes fr ++ add.
 Proof. exact attach_preserves. Qed.
 Print Assumptions attach_keeps_indexes_exact.
+(* hypotheses satisfiable: a two-element subtree attached to the three-element fragment *)
+Example attach_keeps_indexes_exact_hyps_sat : FragOK d_frag /\ 0 = fname d_frag /\ WF (fnodes d_frag ++ d_add).
+Proof. split; [exact d_frag_ok|split; [reflexivity|exact d_attach_wf]]. Qed.
 Theorem detach_keeps_indexes_exact : forall fr f hs,
   FragOK fr -> f = fname fr ->
   exists fr', step_frag false fr (Detach f hs) = ROk fr' /\ FragOK fr' /\ fnodes fr' = without hs (fnodes fr).
 Proof. exact detach_preserves. Qed.
 Print Assumptions detach_keeps_indexes_exact.
+(* hypotheses satisfiable: detaching two of the three elements (one with an id, one with an href) *)
+Example detach_keeps_indexes_exact_hyps_sat :
+  FragOK d_frag /\ 0 = fname d_frag /\ length (without [2; 3] (fnodes d_frag)) = 1%nat.
+Proof. split; [exact d_frag_ok|split; reflexivity]. Qed.
 
 (* 3. every history of paired operations, over any number of fragments *)
 Theorem every_history_keeps_indexes_exact : forall ops frs,
   FragsOK frs -> ops_pre frs ops -> exists frs', run false ops frs = ROk frs' /\ FragsOK frs'.
 Proof. exact reachable_ok. Qed.
 Print Assumptions every_history_keeps_indexes_exact.
+(* hypotheses satisfiable: two fragments, a history of an attach and two detaches *)
+Example every_history_keeps_indexes_exact_hyps_sat :
+  FragsOK d_forest /\ ops_pre d_forest [Attach 0 d_add; Detach 0 [4; 5]; Detach 1 [7]].
+Proof.
+  split; [exact d_forest_ok|]. split.
+  - intros fr [<-|[<-|[]]] E; [exact d_attach_wf|discriminate E].
+  - intros frs1 E1. vm_compute in E1. injection E1 as <-. split; [exact I|].
+    intros frs2 E2. vm_compute in E2. injection E2 as <-. split; [exact I|]. intros; exact I.
+Qed.
 
 (* 4. user-visible: by_uuid returns exactly the element the trees contain, fails for ids no
       element has; search(type) = scan of the semantic fragments *)
 Theorem by_uuid_returns_tree_element : forall frs u h, FragsOK frs -> by_uuid frs u = ROk h -> In h (scan_uuid frs u).
 Proof. exact by_uuid_sound. Qed.
 Print Assumptions by_uuid_returns_tree_element.
+Example by_uuid_returns_tree_element_hyps_sat : FragsOK d_forest /\ by_uuid d_forest 21 = ROk 7.
+Proof. split; [exact d_forest_ok|reflexivity]. Qed.
 Theorem by_uuid_fails_for_absent : forall frs u, FragsOK frs -> scan_uuid frs u = [] -> by_uuid frs u = RErr E_KeyError.
 Proof. exact by_uuid_missing. Qed.
 Print Assumptions by_uuid_fails_for_absent.
+Example by_uuid_fails_for_absent_hyps_sat : FragsOK d_forest /\ scan_uuid d_forest 99 = [].
+Proof. split; [exact d_forest_ok|reflexivity]. Qed.
 Theorem by_uuid_finds_present : forall frs u h, FragsOK frs -> NoDup frs ->
   In h (scan_uuid frs u) -> (forall h', In h' (scan_uuid frs u) -> h' = h) ->
   (forall fr1 fr2, In fr1 frs -> In fr2 frs -> owners (fnodes fr1) u <> [] -> owners (fnodes fr2) u <> [] -> fr1 = fr2) ->
   by_uuid frs u = ROk h.
 Proof. exact by_uuid_complete. Qed.
 Print Assumptions by_uuid_finds_present.
+Example by_uuid_finds_present_hyps_sat :
+  FragsOK d_forest /\ NoDup d_forest /\ In 7 (scan_uuid d_forest 21) /\
+  (forall h', In h' (scan_uuid d_forest 21) -> h' = 7) /\
+  (forall fr1 fr2, In fr1 d_forest -> In fr2 d_forest ->
+     owners (fnodes fr1) 21 <> [] -> owners (fnodes fr2) 21 <> [] -> fr1 = fr2).
+Proof.
+  split; [exact d_forest_ok|]. split; [exact d_forest_nodup|]. split; [now left|]. split.
+  - intros h' [<-|[]]. reflexivity.
+  - intros fr1 fr2 [<-|[<-|[]]] [<-|[<-|[]]] H1 H2; try reflexivity; exfalso; [apply H1|apply H2]; reflexivity.
+Qed.
 Theorem search_is_scan : forall frs xts h, FragsOK frs -> (In h (search frs xts) <-> In h (scan_xt frs xts)).
 Proof. exact search_exact. Qed.
 Print Assumptions search_is_scan.
+Example search_is_scan_hyps_sat : FragsOK d_forest /\ search d_forest [100; 102] <> [].
+Proof. split; [exact d_forest_ok|discriminate]. Qed.
 
 (* 5. a site that removes an element without un-indexing it breaks the property: the removed
       element is still returned (this is what LinkAccessor.purge_references did before the fix) *)
@@ -55,6 +90,7 @@ Theorem forgetful_site_refuted :
 Proof. exact forgetful_detach_refuted. Qed.
 Print Assumptions forgetful_site_refuted.
 
-(* non-vacuity: a concrete fragment satisfies the invariant *)
+(* non-vacuity: a concrete fragment satisfies the invariant (one element; the *_hyps_sat examples above use
+   a two-fragment forest with five elements) *)
 Example invariant_inhabited : FragOK demo_frag.
 Proof. exact demo_ok. Qed.
